@@ -973,6 +973,11 @@ func (b *BaseStore) replicationLoadComplete(ctx context.Context, logs []ipfslog.
 	b.Logger().Debug("replication load complete")
 	entries := []ipfslog.Entry{}
 	for _, log := range logs {
+		if !logBelongsTo(log, oplog.GetID()) {
+			b.Logger().Warn("fetched entries were written for another log and were discarded")
+			continue
+		}
+
 		_, err := oplog.Join(log, -1)
 		if err != nil {
 			b.Logger().Error("unable to join logs", zap.Error(err))
@@ -1016,6 +1021,25 @@ func (b *BaseStore) replicationLoadComplete(ctx context.Context, logs []ipfslog.
 	if err := b.emitters.evtReplicated.Emit(stores.NewEventReplicated(b.Address(), entries, len(logs))); err != nil {
 		b.Logger().Warn("unable to emit event replicated", zap.Error(err))
 	}
+}
+
+// logBelongsTo reports whether every entry and head of a fetched log was
+// written for the log with the given id. Join only skips foreign entries, it
+// still adopts their heads, which would make them part of the listing.
+func logBelongsTo(log ipfslog.Log, id string) bool {
+	for _, e := range log.GetEntries().Slice() {
+		if e.GetLogID() != id {
+			return false
+		}
+	}
+
+	for _, e := range log.RawHeads().Slice() {
+		if e.GetLogID() != id {
+			return false
+		}
+	}
+
+	return true
 }
 
 func (b *BaseStore) SortFn() ipfslog.SortFn {
